@@ -4,6 +4,7 @@ package locks
 import (
 	"context"
 	"fmt"
+	"sort"
 	"testing"
 	"time"
 
@@ -35,6 +36,7 @@ func drawC01(rt *rapid.T) interface{} {
 	sc.Prime = rapid.SampledFrom([]uint64{1, 2, 3, 73}).Draw(rt, "prime")
 	sc.RW = rapid.SampledFrom([]int{1, 2, 3, 10}).Draw(rt, "rw")
 	nk := rapid.IntRange(1, 3).Draw(rt, "nkeys")
+	keyBase := rapid.IntRange(0, 7).Draw(rt, "keybase") // which typed keys are in play (see hx.KeyOf)
 	nc := rapid.IntRange(2, hx.Pick(6, 8)).Draw(rt, "nclients")
 	for i := 0; i < nc; i++ {
 		n := rapid.IntRange(1, hx.Pick(4, 7)).Draw(rt, "rounds")
@@ -42,7 +44,7 @@ func drawC01(rt *rapid.T) interface{} {
 		for j := 0; j < n; j++ {
 			r := semRound{}
 			r.Write = rapid.IntRange(0, 2).Draw(rt, "w") == 0
-			r.Key = rapid.IntRange(0, nk-1).Draw(rt, "key")
+			r.Key = keyBase + rapid.IntRange(0, nk-1).Draw(rt, "key")
 			r.Ctx = rapid.SampledFrom([]string{"bg", "bg", "bg", "pre", "later", "later", "deadline"}).Draw(rt, "ctx")
 			r.CancelK = rapid.IntRange(0, 6).Draw(rt, "cancelk")
 			r.Hold = rapid.IntRange(0, 3).Draw(rt, "hold")
@@ -106,8 +108,14 @@ func runC01(t *testing.T, sci interface{}, keepLog bool) *hx.Outcome {
 				s.Count("acquirer-observed-blocked")
 			}
 		}
-		for k, ks := range st.keys {
-			held, nw, present := semap.VerifKeyState(st.m, k)
+		var keyIdx []int
+		for k := range st.keys {
+			keyIdx = append(keyIdx, k)
+		}
+		sort.Ints(keyIdx) // fixed order: which violation is reported first must not depend on map iteration
+		for _, k := range keyIdx {
+			ks := st.keys[k]
+			held, nw, present := semap.VerifKeyState(st.m, hx.KeyOf(k))
 			var blocked []*semWaiter
 			for _, w := range st.waiters {
 				if w.active && w.key == k && w.task.Blocked() {
@@ -210,9 +218,9 @@ func runC01(t *testing.T, sci interface{}, keepLog bool) *hx.Outcome {
 					var sem *semap.Weighted
 					var err error
 					if r.Write {
-						sem, err = st.m.AcquireWrite(cx, r.Key)
+						sem, err = st.m.AcquireWrite(cx, hx.KeyOf(r.Key))
 					} else {
-						sem, err = st.m.AcquireRead(cx, r.Key)
+						sem, err = st.m.AcquireRead(cx, hx.KeyOf(r.Key))
 					}
 					me.ExitAPI()
 					w.active = false
@@ -260,9 +268,9 @@ func runC01(t *testing.T, sci interface{}, keepLog bool) *hx.Outcome {
 					}
 					me.EnterAPI("Release")
 					if r.Write {
-						st.m.ReleaseWrite(r.Key, sem)
+						st.m.ReleaseWrite(hx.KeyOf(r.Key), sem)
 					} else {
-						st.m.ReleaseRead(r.Key, sem)
+						st.m.ReleaseRead(hx.KeyOf(r.Key), sem)
 					}
 					me.ExitAPI()
 					ks.held -= weight
